@@ -24,7 +24,8 @@ def classify(path, out_dir, chunk_dir):
             return "chunk_config"
         return "chunk_npz" if base.endswith(".npz") else "chunk_other"
     for name, cls in CLASSES:
-        if base == name:
+        # the run's artifacts live directly in the output directory (only the CSV logger's files sit in its version folder)
+        if base == name and (rel == name or name in ("metrics.csv", "hparams.yaml")):
             return cls
     if base.endswith(".ckpt"):
         return "ckpt_other"
@@ -58,6 +59,12 @@ def main():
         J = json.load(f)
     job, repo, work = J["job"], J["repo"], J["work"]
     out_dir = os.path.join(work, "out")
+    if job.get("cwd_out"):
+        # no output directory given (save_ckpt_path left unset): "the current working directory is used" - the run gets
+        # a fresh one of its own (seed C19_r12)
+        out_dir = os.path.join(work, "run")
+        os.makedirs(out_dir)
+        os.chdir(out_dir)
     chunk_dir = os.path.join(work, "chunks") if job["fw"] == "torch_dataset_np_chunks" else None
     import hashlib
     token = "K" + hashlib.sha256(("%s-%s" % (J["seed"], sorted(job.items()))).encode()).hexdigest()[:31]
@@ -153,6 +160,8 @@ def main():
             sio.save_slp(sio.Labels(labeled_frames=lfs, videos=vids, skeletons=[lab.skeletons[0]]), wide)
             plain["data_config"]["train_labels_path"] = wide
             plain["data_config"]["val_labels_path"] = wide
+        if job.get("cwd_out"):
+            plain["trainer_config"]["save_ckpt_path"] = None
         if job.get("test"):
             plain["data_config"]["test_file_path"] = plain["data_config"]["val_labels_path"]
         if job.get("lean") and not job["structured"]:
@@ -179,7 +188,7 @@ def main():
             derived = job.get("feed") == "derived"
             tc = get_trainer_config(batch_size=(4 if derived else 1), shuffle_train=False, num_workers=0, ckpt_save_top_k=1, ckpt_save_last=True,
                                     trainer_num_devices=1, trainer_accelerator="cpu", enable_progress_bar=False, steps_per_epoch=(None if derived else 1),
-                                    max_epochs=1, seed=1000, use_wandb=job["wandb"], save_ckpt=job["ckpt"], save_ckpt_path=out_dir,
+                                    max_epochs=1, seed=1000, use_wandb=job["wandb"], save_ckpt=job["ckpt"], save_ckpt_path=(None if job.get("cwd_out") else out_dir),
                                     wandb_entity=None, wandb_project="verif", wandb_name="run", wandb_api_key=token, wandb_mode="offline",
                                     optimizer="Adam", learning_rate=1e-4, lr_scheduler=(None if job.get("sched", "none") == "none" else job["sched"]), early_stopping=False)
             cfg = TrainingJobConfig(data_config=dc, model_config=mc, trainer_config=tc).to_sleap_nn_cfg()
